@@ -284,7 +284,7 @@ def state_key(spec):
 
 
 def budget(tier):
-    return {"timeout": 900.0 if tier == "quick" else 2400.0, "per_path": 60.0}
+    return {"timeout": 300.0 if tier == "quick" else 2400.0, "per_path": 60.0}
 
 
 META = {
